@@ -348,6 +348,13 @@ def run_cli_job(cs, tool, argv, net_script, sched_seed, preempt_permille):
     sched.main.os_thread = threading.current_thread()
     cs.on_effect = lambda seq, kind, rel: sched.yield_point("effect")
     requests.get = make_sim_get(net_script)
+    # monotonic clocks follow the virtual clock too (budget / deadline arithmetic in the code under test)
+    import time as _t
+
+    _t.monotonic = lambda: cs.clock.now_us / 1e6
+    _t.perf_counter = lambda: cs.clock.now_us / 1e6
+    _t.monotonic_ns = lambda: cs.clock.now_us * 1000
+    _t.perf_counter_ns = lambda: cs.clock.now_us * 1000
     for m in ("ascmhl.cli.update", "ascmhl.cli.ascmhl", "ascmhl.cli.ascmhl_debug"):
         sys.modules.pop(m, None)
     threading.Thread = SimThread
